@@ -20,7 +20,7 @@ EXPLANATION = (
     "name - R8 - are followed to their consumer).")
 ASSUMPTIONS = ["program_options::variables_map::count(k) > 0 iff option k was given", "${ENV:default} placeholders in the default ini are expanded by the ini module from the environment"]
 THOROUGH_CONFIGS = [["-UNDEBUG", "-DPIKA_DEBUG"]]
-FLOORS = {"C16.R11": 1, "C16.R12": 8, "C16.R1": 11, "C16.R2": 10, "C16.R3": 8, "C16.R4": 3, "C16.R6": 1, "C16.R7": 1, "C16.R8": 1, "C16.R9": 8, "C16.R10": 1, "C16.R13": 5, "C16.R14": 12, "C16.R15": 1, "C16.R16": 6, "C16.R17": 3}
+FLOORS = {"C16.R11": 1, "C16.R12": 8, "C16.R1": 11, "C16.R2": 10, "C16.R3": 8, "C16.R4": 3, "C16.R6": 1, "C16.R7": 1, "C16.R8": 1, "C16.R9": 8, "C16.R10": 1, "C16.R13": 5, "C16.R14": 12, "C16.R15": 1, "C16.R16": 6, "C16.R17": 3, "C16.R18": 7}
 
 SETTINGS = [  # (command line option, ini key, environment variable, handler)
     ("pika:threads", "pika.os_threads", "PIKA_THREADS", "handle_num_threads"),
@@ -88,6 +88,8 @@ def run(rep, tier):
              "did not recognise to the late check, which stops start-up for an unknown --pika: option. Every parser run that goes through get_commandline_parser - the one "
              "place that may switch allow_unregistered on - therefore collects its unrecognised tokens (collect_unrecognized) in the same function; a run whose result is stored "
              "directly loses them: an unknown or misspelt --pika: option in an options file (--pika:options-file, @file, <app>.cfg) is silently ignored")
+    rep.rule("C16.R18", "K7 (evaluated with modelled look-ups): handle_numa_sensitive resolves to the command line's --pika:numa-sensitive when given - 0, 1 and 2 are accepted, "
+             "anything above stops start-up - otherwise to the configured pika.numa_sensitive, otherwise to the default it was handed")
     rep.rule("C16.R4", "K2: prepend_options puts PIKA_COMMANDLINE_OPTIONS before argv; preliminary parse + handle_arguments precede reconfigure")
 
     PC = facts(rep, lib("command_line_handling", "src/parse_command_line.cpp"), [r"^pika::detail::"])
@@ -972,3 +974,49 @@ def num_threads_table(rep):
             raise AnalysisBroken("handle_num_threads: scenario '%s' not decided (%s)" % (name, sorted(map(str, outs))))
         else:
             rep.bad("C16.R12", fn, fn.loc, "thread-count:" + name.replace(" ", "-"), "handle_num_threads resolves '%s' (16 usable PUs on 8 cores) to %s, expected %s" % (name, sorted(map(str, outs)), want))
+
+    # ---- R18: handle_numa_sensitive, evaluated
+    HN = facts(rep, lib("command_line_handling", "src/command_line_handling.cpp"), [r"handle_numa_sensitive$"])
+    fsn = [f for f in HN.find(r"handle_numa_sensitive$") if f.parent == -1]
+    if len(fsn) != 1:
+        raise AnalysisBroken("handle_numa_sensitive not found")
+    fnn = fsn[0]
+    dpar = fnn.params[-1]["name"]
+
+    def model_n(cmdline, configured):
+        def h(e, env):
+            cs = callee_short(e)
+            t = T(e)
+            args = e.get("args") or []
+            if cs == "count" and args and "pika:numa-sensitive" in T(args[0]):
+                return 1 if cmdline is not None else 0
+            if cs == "as" and "pika:numa-sensitive" in t:
+                if cmdline is None:
+                    raise Unknown(t)
+                return cmdline
+            if cs in ("get_value", "get_entry") and len(args) >= 2:
+                return configured if configured is not None else eval_tree(args[1], env)
+            raise Unknown(t)
+        return h
+    for name, cmd, conf, want in (("--pika:numa-sensitive=0", 0, None, 0), ("--pika:numa-sensitive=1", 1, 2, 1), ("--pika:numa-sensitive=2", 2, None, 2),
+                                  ("--pika:numa-sensitive=3", 3, None, "throw"), ("--pika:numa-sensitive=7", 7, 1, "throw"),
+                                  ("pika.numa_sensitive=1, no option", None, 1, 1), ("nothing given", None, None, 5)):
+        res = interp(fnn, {"$call": model_n(cmd, conf), dpar: 5}, unknown_both=False)
+        outs = set()
+        for end, e_, evs, ev in res:
+            if end == "return" and ev is not None and ev.get("e") is not None:
+                try:
+                    outs.add(eval_tree(ev["e"], e_))
+                except Unknown:
+                    outs.add("?")
+            elif end in ("throw", "noreturn"):
+                outs.add("throw")
+            else:
+                outs.add("?" + end)
+        if outs == {want}:
+            rep.ok("C16.R18", fnn, "%s -> %s" % (name, want))
+        elif any(str(o).startswith("?") for o in outs):
+            raise AnalysisBroken("handle_numa_sensitive: scenario '%s' not decided (%s)" % (name, sorted(map(str, outs))))
+        else:
+            rep.bad("C16.R18", fnn, fnn.loc, "numa-sensitive:" + name.replace(" ", "-"), "handle_numa_sensitive resolves '%s' (default handed in: 5) to %s, expected %s" % (name, sorted(map(str, outs)), want))
+
